@@ -22,6 +22,7 @@ RULE = ("One evaluation = one seeded execution of two real clients (real "
         "reconnects and replays. Non-trivial: at least one tamper operation "
         "hit a message that the target had not processed yet. Distinct: "
         "event-log digests among non-trivial runs.")
+RULE += (' A fifth configuration runs long exchanges (up to 45 messages a side) with late verbatim replays of version/pake/phase 0. Sweep operations include non-ASCII look-alike labels, third-side re-labelling and pake-withholding.')
 LEVEL_TEXT = ("Fault enumeration: every tamper operation of the sweep table "
               "(bit flips, truncation, extension, drop, duplicate, side and "
               "phase re-labelling incl. non-ASCII look-alike labels, cross-"
